@@ -80,6 +80,12 @@ type Config struct {
 	// RequestTimeout is timeout duration for all synchronous requests over SecureChannel.
 	// If the Server doesn't respond within RequestTimeout time, Client returns StatusBadTimeout
 	RequestTimeout time.Duration
+
+	// AllowSecurity is called by the secure channel of a server when a
+	// client requests to open the channel with the given security policy
+	// and mode. The channel is only opened if the function returns true.
+	// All security settings are allowed if the function is nil.
+	AllowSecurity func(policyURI string, mode ua.MessageSecurityMode) bool
 }
 
 // SessionConfig is a set of common configurations used in Session.
